@@ -28,7 +28,10 @@
    operators have exactly one parameter (a two-parameter lambda applied by Select to a packaged element
    is left as a call with the tuple as its argument - Example [two_parameter_lambda_keeps_package];
    Python raises TypeError on it); dictionary keys and key selectors are str/int constants (bool keys
-   compare equal to ints in Python); keyword-argument calls of lambdas only with atoms. *)
+   compare equal to ints in Python); keyword-argument calls of lambdas only with atoms; a called lambda
+   with a starred argument [*xs] is not reduced (Python's binding refuses it), so [HS_Beta] asks for no
+   starred argument and such a call is typable only as an atom call (Example
+   [starred_called_lambda_is_left_as_a_call]). *)
 From FA.Base Require Import PyAst Induct Value Eval Traverse Names.
 From FA.Gen Require Import TablesSimp.
 From FA.Model Require Import Simplify.
@@ -241,8 +244,9 @@ Inductive has_shape : (string -> shape) -> expr -> shape -> Prop :=
  | HS_SubD G e k kss t : has_shape G e (SD kss) -> strint k = true -> In (k, t) kss ->
      has_shape G (Subscript e (Const k)) t
  | HS_AttrD G e a kss t : has_shape G e (SD kss) -> In (CStr a, t) kss -> has_shape G (Attr e a) t
- (* a called lambda *)
- | HS_Beta G ps b args ss s : length ps = length args -> has_shapes G args ss -> has_shape (upd G ps ss) b s ->
+ (* a called lambda; a starred argument [*xs] is not bound positionally (such a call is an atom call, [HS_Gen]) *)
+ | HS_Beta G ps b args ss s : length ps = length args -> existsb is_starred args = false ->
+     has_shapes G args ss -> has_shape (upd G ps ss) b s ->
      has_shape G (Call (Lambda ps b) args [] []) s
  (* the three operators *)
  | HS_Select G src x b s0 t : has_shape G src (seq s0) -> has_shape (upd G [x] [s0]) b t ->
@@ -394,7 +398,7 @@ Proof.
   - intros G e k kss t _ IH Hk Hin G' H. eapply HS_SubD; [|eassumption..]. apply IH. intros y Hy. apply H.
     apply (mentions_child y (Subscript e (Const k)) e); [left; reflexivity | assumption].
   - intros G e a kss t _ IH Hin G' H. eapply HS_AttrD; [|eassumption]. apply IH. intros y Hy. apply H. exact Hy.
-  - intros G ps b args ss s Hl _ IHa _ IHb G' H. eapply HS_Beta; [assumption | |].
+  - intros G ps b args ss s Hl Hstar _ IHa _ IHb G' H. eapply HS_Beta; [assumption | assumption | |].
     + apply IHa. intros z Hz. apply H. cbn [mentions]. rewrite !mentions_any_fix, Hz. rewrite orb_true_r. reflexivity.
     + apply IHb. intros z Hz. apply upd_ext. apply H. cbn [mentions]. rewrite Hz, orb_true_r. reflexivity.
   - intros G src x b s0 t _ IHs _ IHb G' H. eapply HS_Select.
@@ -503,6 +507,12 @@ Proof.
   - cbn [gen_node]. rewrite Hg. reflexivity.
 Qed.
 
+Lemma is_starred_rename m a : is_starred (rename m a) = is_starred a.
+Proof. destruct a; try reflexivity. cbn [rename]. destruct (ren_lookup id m); reflexivity. Qed.
+
+Lemma existsb_starred_rename m l : existsb is_starred (map (rename m) l) = existsb is_starred l.
+Proof. induction l as [|a l IH]; [reflexivity|]. cbn [map existsb]. rewrite is_starred_rename, IH. reflexivity. Qed.
+
 Lemma hs_rename_mut :
   (forall G e s, has_shape G e s -> forall m G', mok m -> rcond m e G G' -> has_shape G' (rename m e) s) /\
   (forall G es ss, has_shapes G es ss -> forall m G', mok m -> (forall e, In e es -> rcond m e G G') ->
@@ -522,10 +532,11 @@ Proof.
     eapply HS_SubD; [|eassumption..]. apply IH; [assumption|]. eapply rcond_child; [|exact Hr]. left; reflexivity.
   - intros G e a kss t _ IH Hin m G' Hm Hr. cbn [rename map_children_t].
     eapply HS_AttrD; [|eassumption]. apply IH; [assumption|]. eapply rcond_child; [|exact Hr]. left; reflexivity.
-  - intros G ps b args ss s Hl Ha IHa _ IHb m G' Hm Hr. cbn [rename map_children_t map].
+  - intros G ps b args ss s Hl Hstar Ha IHa _ IHb m G' Hm Hr. cbn [rename map_children_t map].
     assert (Hrl : rcond m (Lambda ps b) G G') by (eapply rcond_child; [|exact Hr]; left; reflexivity).
     apply HS_Beta with (ss := ss).
     + rewrite map_length. assumption.
+    + rewrite existsb_starred_rename. assumption.
     + apply IHa; [assumption|]. intros e He. eapply rcond_child; [|exact Hr]. cbn [children]. apply in_cons. apply in_or_app. left. exact He.
     + apply IHb; [apply mok_under; assumption|]. apply rcond_under; [|assumption].
       rewrite (has_shapes_length _ _ _ Ha). symmetry. assumption.
@@ -935,8 +946,8 @@ Proof.
   { apply hs_ext_all with (G := upd G [p'] [SA]); [|intros z; apply upd_ext; apply HG1].
     apply (hs_mau G [p] [SA] fb s0 (c + 1) Hf eq_refl); [|intros q [<-|[]]; assumption].
     eapply below_mono; [|exact Bf]. lia. }
-  apply HS_Beta with (ss := [s0]); [reflexivity | | exact Hg'].
-  constructor; [|constructor]. apply HS_Beta with (ss := [SA]); [reflexivity | | exact Hf'].
+  apply HS_Beta with (ss := [s0]); [reflexivity | reflexivity | | exact Hg'].
+  constructor; [|constructor]. apply HS_Beta with (ss := [SA]); [reflexivity | reflexivity | | exact Hf'].
   constructor; [|constructor]. apply hs_Name. unfold G1. apply upd_SAs. right. left. reflexivity.
 Qed.
 
@@ -1519,10 +1530,10 @@ Section Shape.
       + apply (out_typable G st c1 src SA HG Osrc Hwsrc). constructor. assumption.
       + assert (Ha : has_shape (upd G [a] [SA]) (Name a) SA) by (apply hs_Name; apply upd1).
         apply HS_Gen; [reflexivity|]. cbn [children SAs map]. constructor; [|constructor; [|constructor]].
-        * apply HS_Beta with (ss := [SA]); [reflexivity | constructor; [exact Ha | constructor]|].
+        * apply HS_Beta with (ss := [SA]); [reflexivity | reflexivity | constructor; [exact Ha | constructor]|].
           eapply hs_ext_all; [exact (out_body_typable G st c1 [p] fb SA HG Of Hwf (CA _ Hafb))|].
           intros z. apply (upd_fresh_same G st c1 c1 z HG Hst1 (le_n _)).
-        * apply HS_Beta with (ss := [SA]); [reflexivity | constructor; [exact Ha | constructor]|].
+        * apply HS_Beta with (ss := [SA]); [reflexivity | reflexivity | constructor; [exact Ha | constructor]|].
           eapply hs_ext_all; [exact Hsb|]. intros z. apply (upd_fresh_same G st c1 c1 z HG Hst1 (le_n _)).
     - destruct (is_call_of parent "Select") eqn:E2.
       + (* Where of Select *)
@@ -1608,7 +1619,7 @@ Section Shape.
     { destruct f as [|f0]; [intros st bd c ps b e' c' G t H; discriminate H | apply lam_visit; apply IHf; lia]. }
     intros st bd c e e' c' G s H Hst Hp HG Hs.
     destruct Hs as [G x|G es ss Hes|G es ss Hes|G kss vs Hk Hvs|G e s ss z t He Hi Hpy|G e k kss t He Hk Hin|G e a kss t He Hin
-                   |G ps b args ss s Hl Hargs Hb|G src x b s0 t Hsrc Hb|G src x b s0 Hsrc Hb|G src x b s0 t Hsrc Hb|G ps b Hb|G e Hg Hcs].
+                   |G ps b args ss s Hl Hstar Hargs Hb|G src x b s0 t Hsrc Hb|G src x b s0 Hsrc Hb|G src x b s0 t Hsrc Hb|G ps b Hb|G e Hg Hcs].
     - eapply shape_Name; [exact H | exact HG | constructor].
     - exact (shape_seq f IH st bd c true es e' c' G ss H Hst Hp HG Hes).
     - exact (shape_seq f IH st bd c false es e' c' G ss H Hst Hp HG Hes).
@@ -1620,7 +1631,7 @@ Section Shape.
       assert (Hd : has_dup ps = false).
       { destruct (wfq_call_parts (Lambda ps b) args [] [] ltac:(intros n; discriminate) (p_wf _ _ _ _ Hp)) as (Hwl & _ & _).
         apply wfq_lam_iff in Hwl. tauto. }
-      cbn [simp] in H. rewrite (bind_positional ps args [] Hd Hl) in H.
+      cbn [simp] in H. rewrite Hstar, (bind_positional ps args [] Hd Hl) in H.
       exact (shape_beta f IH st bd c ps b args [] [] args e' c' G ss s (bind_positional ps args [] Hd Hl) H Hst Hp HG Hargs Hb).
     - exact (shape_Select f IH IHL st bd c src x b e' c' G s0 t H Hst Hp HG Hsrc Hb).
     - exact (shape_Where f IH IHL st bd c src x b e' c' G s0 H Hst Hp HG Hsrc Hb).
@@ -1642,7 +1653,9 @@ Section Shape.
           apply (shape_call_generic f IH st bd c (Attr e a) args kwn kwv e' c' G); try assumption; intros; discriminate.
         * apply (shape_call_generic f IH st bd c (Call e args0 kwn0 kwv0) args kwn kwv e' c' G); try assumption; intros; discriminate.
         * (* Lambda *)
-          cbn [simp] in H. destruct (bind_lambda_call ps args kwn kwv) as [given|] eqn:Eb.
+          cbn [simp] in H. destruct (existsb is_starred args) eqn:Estar;
+            [apply (shape_call_generic f IH st bd c (Lambda ps e) args kwn kwv e' c' G); try assumption; intros; discriminate|].
+          destruct (bind_lambda_call ps args kwn kwv) as [given|] eqn:Eb.
           -- apply (shape_beta f IH st bd c ps e args kwn kwv given e' c' G (SAs given) SA Eb H Hst Hp HG).
              ++ apply has_shapes_SAs. intros g Hin. apply Hch. cbn [children]. right. eapply bind_lambda_call_incl; eassumption.
              ++ rewrite (SAs_len_eq given ps) by (eapply bind_lambda_call_length; eassumption).
@@ -1853,6 +1866,18 @@ Module ShapeExample.
     split; [reflexivity|]. split.
     - eexists; eexists. split; [vm_compute; reflexivity|]. vm_compute. reflexivity.
     - eexists; eexists. split; [vm_compute; reflexivity|]. vm_compute. reflexivity.
+  Qed.
+  (* a called lambda with a starred argument is left as a call (Python's binding refuses *xs):
+     Select(ds, lambda x: (lambda a: a)( *(x,) )) *)
+  Definition starred_call : expr :=
+    sel (Name "ds") "x" (Call (Lambda ["a"] (Name "a")) [Other "Starred;value=n" [] [Tuple [Name "x"]]] [] []).
+  Example starred_called_lambda_is_left_as_a_call :
+    wfq starred_call = true /\
+    simplify 100 0 starred_call = Ok (starred_call, 0) /\
+    (exists q' c', simplify 100 0 starred_call = Ok (q', c') /\ wfq q' = true /\ nopkg q' = false).
+  Proof.
+    split; [reflexivity|]. split; [vm_compute; reflexivity|].
+    eexists; eexists. split; [vm_compute; reflexivity|]. split; vm_compute; reflexivity.
   Qed.
 End ShapeExample.
 
